@@ -401,6 +401,23 @@ def run_history(case, two_d_monitors=False):
                 if not same_table(I.trajectory, snap_t) or not (same_bits(I.lla[:rows_], snap_b[0]) and same_bits(I.velocity_n[:rows_], snap_b[1])
                                                                  and same_bits(I.mat_nb[:rows_], snap_b[2])):
                     fail(vio('rejected_call_left_trace', f'a rejected set_pva (columns {keep}) changed the stored trajectory or the buffers', op=len(ops)))
+            elif r < 0.975 and pos < len(inc):
+                # ... and a REJECTED integrate / predict (an increments table lacking a column): no trace either
+                ops.append(('integrate_rejected',))
+                drop = [['dv_z'], ['dt'], ['theta_x', 'theta_y']][int(rng.integers(0, 3))]
+                badt = inc.iloc[pos:pos + int(rng.integers(1, 6))].drop(columns=drop)
+                rows_ = len(I.trajectory)
+                snap_t = I.trajectory.copy()
+                snap_b = (I.lla[:rows_].copy(), I.velocity_n[:rows_].copy(), I.mat_nb[:rows_].copy())
+                for what in ('integrate', 'predict'):
+                    try:
+                        I.integrate(badt) if what == 'integrate' else I.predict(badt.iloc[0])
+                        fail(vio('exception', f'{what} accepted increments without {drop}'))
+                    except (KeyError, IndexError, ValueError, TypeError, AttributeError):
+                        bump('integrate_rejected_calls')
+                if not same_table(I.trajectory, snap_t) or not (same_bits(I.lla[:rows_], snap_b[0]) and same_bits(I.velocity_n[:rows_], snap_b[1])
+                                                                 and same_bits(I.mat_nb[:rows_], snap_b[2])):
+                    fail(vio('rejected_call_left_trace', f'a rejected integrate / predict (increments without {drop}) changed the stored trajectory or the buffers', op=len(ops)))
             else:
                 ops.append(('get_time',))
                 if I.get_time() != expected_index[-1]:
